@@ -127,6 +127,14 @@
 	#define HFSM2_BREAK_AVAILABLE()										   false
 #endif
 
+#ifdef HFSM2_VERIF
+	#undef HFSM2_BREAK
+	#undef HFSM2_BREAK_AVAILABLE
+	extern "C" void hfsm2_verif_break(const char* file, int line) noexcept;
+	#define HFSM2_BREAK()						  ::hfsm2_verif_break(__FILE__, __LINE__)
+	#define HFSM2_BREAK_AVAILABLE()											true
+#endif
+
 #ifdef _DEBUG
 	#define HFSM2_IF_DEBUG(...)										 __VA_ARGS__
 	#define HFSM2_UNLESS_DEBUG(...)
@@ -4029,6 +4037,10 @@ struct PlanDataT<
 	HFSM2_CONSTEXPR(14)	void verifyPlans()							  const noexcept;
 	HFSM2_CONSTEXPR(14)	Long verifyPlan(const RegionID stateId)		  const noexcept;
 #endif
+
+#ifdef HFSM2_VERIF
+	HFSM2_CONSTEXPR(11)	int empty()									  const noexcept	{ return 0; }
+#endif
 };
 
 template <
@@ -4093,6 +4105,10 @@ struct PlanDataT<
 	HFSM2_CONSTEXPR(14)	void verifyPlans()							  const noexcept;
 	HFSM2_CONSTEXPR(14)	Long verifyPlan(const RegionID stateId)		  const noexcept;
 #endif
+
+#ifdef HFSM2_VERIF
+	HFSM2_CONSTEXPR(11)	int empty()									  const noexcept	{ return 0; }
+#endif
 };
 
 template <
@@ -4129,6 +4145,10 @@ struct PlanDataT<
 #if HFSM2_ASSERT_AVAILABLE()
 	HFSM2_CONSTEXPR(14)	void verifyPlans()							  const noexcept	{}
 #endif
+
+#ifdef HFSM2_VERIF
+	HFSM2_CONSTEXPR(11)	int empty()									  const noexcept	{ return 0; }
+#endif
 };
 
 template <
@@ -4163,6 +4183,10 @@ struct PlanDataT<
 
 #if HFSM2_ASSERT_AVAILABLE()
 	HFSM2_CONSTEXPR(14)	void verifyPlans()							  const noexcept	{}
+#endif
+
+#ifdef HFSM2_VERIF
+	HFSM2_CONSTEXPR(11)	int empty()									  const noexcept	{ return 0; }
 #endif
 };
 
